@@ -9,6 +9,7 @@ and judges the real event stream.
 Judge on the implementation: the property's statement evaluated on the implementation's own event
 stream / dumps (no model involved)."""
 import json
+import re
 import os
 import subprocess
 
@@ -715,6 +716,10 @@ STALE_KEY = "C03:stale-manager-fails-settled-payment"
 # a resolution (of the payment or of one MPP part) was handled, the monitor released it, and the sender restarts
 # from a manager persisted before that: the restored manager waits for that part for ever
 LOST_KEY = "C03:stale-manager-loses-handled-resolution"
+# the peer's failure of an HTLC is irrevocably committed while a monitor update is in progress; the Channel keeps it
+# in monitor_pending_failures; the channel is closed before the update completes and force_shutdown drops it
+HELD_KEY = "C03:held-failure-dropped-on-close"
+CLASS_KEYS = {"stale": STALE_KEY, "lost": LOST_KEY, "heldfail": HELD_KEY}
 
 DIRECTED = {
     # one path behind an in-progress monitor update, the other path's first hop gone (both orders)
@@ -744,6 +749,11 @@ DIRECTED = {
                                             "reload 1000", "pump"],
     "htlc_only_in_prev_counterparty_commitment_reload_line": ["cfg 1 1 0 0 0", "send 5000 0", "pump", "fail", "pump", "send 3000 0", "pump", "fail", "deliver 0", "deliver 0", "deliver 0", "deliver 0", "deliver 0",
                                                               "disconnect 0 1", "fclose 0 0", "snapshot", "freeze", "mine", "blocks 6", "reload 1", "reconnect 0 1", "pump"],
+    # the three classes of findings (known_findings.json), each with its smallest history
+    "finding_stale_manager_fails_settled_payment": ["cfg 0 1 0 0 1", "send 5000 0", "pump", "blocks 1", "claim", "pump", "reload 1", "reconnect 0 1", "pump"],
+    "finding_stale_manager_loses_handled_part_failure": ["cfg 2 1 0 1 0", "sendmpp 2442", "fclose 0 3", "snapshot", "blocks 6", "reload 1000"],
+    "finding_stale_manager_loses_handled_terminal_event": ["cfg 0 1 0 0 0", "send 5000 0", "pump", "fclose 0 0", "snapshot", "claim", "blocks 8", "reload 1000"],
+    "finding_held_failure_dropped_on_close": ["cfg 0 1 0 0 0", "send 5000 0", "pump", "fail", "persist 0 1", "pump", "complete 0", "pump", "fclose 0 0"],
     # plain restarts
     "reload_with_payment_in_flight": ["cfg 1 1 0 0 0", "send 5000 1", "snapshot", "pump", "freeze", "reload 1", "reconnect 0 1", "pump", "claim", "pump"],
     "reload_after_onchain_claim": ["cfg 0 1 0 0 0", "send 5000 0", "pump", "snapshot", "disconnect 0 1", "fclose 1 0", "claim", "freeze", "mine", "blocks 3", "mine", "reload 1", "pump"],
@@ -862,24 +872,48 @@ def run_schedule(ctx, lines):
     return rec
 
 
-def shrink_schedule(ctx, lines, cat, why, budget=120):
-    """greedy line removal keeping the same failure class and message head"""
-    head = why[:50]
+def _why_class(why):
+    return re.sub(r"payment [0-9a-f]{8}", "payment", why or "")[:60]
+
+
+def shrink_schedule(ctx, lines, cat, why, budget=150):
+    """Keeps the failure class and the head of the message. First whole stretches, then single steps are
+    replaced by 'nop' (which keeps the numbering of the steps, and with it the automatic snapshots, stable);
+    then the nops are dropped where the failure survives that too."""
+    head = _why_class(why)
+
+    def fails(cand):
+        r = run_schedule(ctx, cand)
+        return (not r.get("ok")) and r.get("cat") == cat and _why_class(r.get("why", "")) == head
+
     cur = list(lines)
+    size = max(1, (len(cur) - 1) // 2)
+    while size >= 1 and budget > 0:
+        i = 1
+        while i < len(cur) and budget > 0:
+            cand = cur[:i] + ["nop"] * min(size, len(cur) - i) + cur[i + size:]
+            if cand != cur:
+                budget -= 1
+                if fails(cand):
+                    cur = cand
+            i += size
+        size //= 2
+    while len(cur) > 1 and cur[-1] == "nop":
+        cur.pop()
     i = len(cur) - 1
     while i >= 1 and budget > 0:
-        cand = cur[:i] + cur[i + 1:]
-        budget -= 1
-        r = run_schedule(ctx, cand)
-        if not r.get("ok") and r.get("cat") == cat and r.get("why", "")[:50] == head:
-            cur = cand
+        if cur[i] == "nop":
+            cand = cur[:i] + cur[i + 1:]
+            budget -= 1
+            if fails(cand):
+                cur = cand
         i -= 1
     return cur
 
 
 def sched_tier(ctx):
     if not os.path.exists(ctx.bin_path("h_paysched")):
-        return [], [], []
+        return [], {}
     from concurrent.futures import ThreadPoolExecutor
     rng = ctx.rng.fork("sched")
     n, steps = (150, 60) if ctx.tier == "quick" else (10000, 60)
@@ -890,7 +924,7 @@ def sched_tier(ctx):
     with ThreadPoolExecutor(max_workers=core.NPROC) as ex:
         results = list(ex.map(lambda j: run_schedule(ctx, j[1]), jobs))
     hist, nsteps, npay, nterm = {}, 0, 0, [0, 0]
-    real, stale, lost = [], [], []
+    real, classes = [], {k: [] for k in CLASS_KEYS}
     for (name, lines), r in zip(jobs, results):
         nsteps += len(lines)
         for pmt in r.get("payments", []):
@@ -901,16 +935,15 @@ def sched_tier(ctx):
             k = l.split()[0]
             hist[k] = hist.get(k, 0) + 1
         if not r.get("ok"):
-            {"stale": stale, "lost": lost}.get(r.get("cat"), real).append((name, lines, r))
+            classes.get(r.get("cat"), real).append((name, lines, r))
     ctx.coverage["sched_schedules"] = len(jobs)
     ctx.coverage["sched_steps"] = nsteps
     ctx.coverage["sched_action_histogram"] = hist
     ctx.coverage["sched_payments"] = {"accepted": npay, "PaymentSent": nterm[0], "PaymentFailed": nterm[1]}
-    ctx.coverage["sched_stale_manager_class_hits"] = len(stale)
-    ctx.coverage["sched_lost_resolution_class_hits"] = len(lost)
+    ctx.coverage["sched_finding_class_hits"] = {k: len(v) for k, v in classes.items()}
     if jobs:
         ctx.samples.append({"schedule": jobs[len(DIRECTED)][1][:12], "result": results[len(DIRECTED)]})
-    return real, stale, lost
+    return real, classes
 
 
 def run(ctx):
@@ -941,7 +974,7 @@ def run(ctx):
     ctx.assumptions += ["HTLCSource (payment id, session priv, path) travels unchanged with each HTLC", "Retry::Timeout / BOLT12 pre-HTLC states not modelled"]
     seqs, dis, judge_fails, idem = functional(ctx, okm)
     e2e_fails = e2e(ctx)
-    sched_real, sched_stale, sched_lost = sched_tier(ctx)
+    sched_real, sched_classes = sched_tier(ctx)
     nfun = ctx.coverage.get("functional_ops", 0)
     ctx.coverage["evaluations"] = nfun + ctx.coverage.get("e2e_scenarios", 0) + ctx.coverage.get("sched_steps", 0)
     ctx.coverage["distinct_nontrivial"] = ctx.coverage.get("functional_distinct_signatures", 0) + len(ctx.coverage.get("e2e_scenario_histogram", {}))
@@ -964,24 +997,25 @@ def run(ctx):
             ctx.violation("end-to-end payment scenario violates C03: " + f.get("why", ""),
                           {"broken": "e2e judge (h_payflow)", "scenario": f, "replay_cmd": "%s replay %s" % (ctx.bin_path("h_payflow"), f.get("params", ""))}, True,
                           key="e2e:" + f.get("scenario", "?") + ":" + f.get("why", ""))
-    for (name, lines, r) in sched_real[:2]:
+    sched_real.sort(key=lambda h: (h[2].get("cat") != "c03", len(h[1])))
+    for k, (name, lines, r) in enumerate(sched_real[:2]):
         small = lines
-        if r.get("cat") == "c03":
+        if r.get("cat") == "c03" and len(lines) > 20 and k == 0:
             try:
-                small = shrink_schedule(ctx, lines, r.get("cat"), r.get("why", ""))
+                small = shrink_schedule(ctx, lines, r.get("cat"), r.get("why", ""), budget=80 if ctx.tier == "quick" else 200)
             except Exception:
                 small = lines
         ctx.violation(("scheduled run on real nodes violates C03: " if r.get("cat") == "c03" else "scheduled run on real nodes died (library assertion or harness): ") + r.get("why", "")[:300],
                       {"broken": "e2e scheduler judge (h_paysched)", "family": name, "schedule": small, "result": r,
                        "replay_cmd": "printf '<schedule lines>' | %s" % ctx.bin_path("h_paysched")}, r.get("cat") == "c03")
-    for (name, lines, r) in sched_stale[:1]:
-        ctx.violation("scheduled run on real nodes: " + r.get("why", "")[:300],
-                      {"broken": "e2e scheduler judge (h_paysched), stale-manager class", "family": name, "schedule": lines, "result": r,
-                       "replay_cmd": "printf '<schedule lines>' | %s" % ctx.bin_path("h_paysched")}, True, key=STALE_KEY)
-    for (name, lines, r) in sched_lost[:1]:
-        ctx.violation("scheduled run on real nodes: " + r.get("why", "")[:300],
-                      {"broken": "e2e scheduler judge (h_paysched), lost-resolution class", "family": name, "schedule": lines, "result": r,
-                       "replay_cmd": "printf '<schedule lines>' | %s" % ctx.bin_path("h_paysched")}, True, key=LOST_KEY)
+    for cat in sorted(CLASS_KEYS):
+        hits = sched_classes.get(cat, [])
+        if hits:
+            # the shortest schedule showing the class
+            name, lines, r = min(hits, key=lambda h: len(h[1]))
+            ctx.violation("scheduled run on real nodes: " + r.get("why", "")[:400],
+                          {"broken": "e2e scheduler judge (h_paysched), class '%s' (%d schedules of this run)" % (cat, len(hits)), "family": name, "schedule": lines, "result": r,
+                           "replay_cmd": "printf '<schedule lines>' | %s" % ctx.bin_path("h_paysched")}, True, key=CLASS_KEYS[cat])
     broken = []
     if not proved:
         broken.append({"obligation": "Coq proof of Props/C03.v", "detail": getattr(ctx, "proof_failure", {"where": gen_err})})
